@@ -342,6 +342,9 @@ var shortDefs = []shortDef{
 	{17, []int{16}, "2digit+1byte", ""},
 	{40, []int{17, 1}, "unequal-2digit", ""},
 	{5, []int{1}, "all-1byte", ""},
+	// chunk sizes with hex digits above 9, written in upper case (1A, A, AB): hex is case-insensitive
+	{47, []int{26, 10}, "upper-hex", ""},
+	{181, []int{171}, "upper-hex-2digit", ""},
 }
 
 // additional ones for the (much shorter) unsigned framing
@@ -367,6 +370,7 @@ var longSeqs = []seqDef{
 	{"small", []int{16, 1, 255, 256}, 8193},
 	{"all-1byte", []int{1}, 1025},
 	{"random", nil, 1 << 30}, // sizes drawn per stream
+	{"upper-hex", []int{43690, 171, 64250}, 1 << 30},
 }
 
 var longLens = []int{1023, 1024, 1025, 4095, 4096, 4097, 8191, 8192, 8193, 65535, 65536, 65537}
